@@ -115,8 +115,8 @@ def sample_cfg(rng, variant, small=True, default_regs=None, shape=None):
     if rng.random() < .15 and shape != "stub_boundary":   # unaligned requests: the generators align both down to 4
         cfg["interpreter_start_address"] += rng.choice([1, 2, 3])
         cfg["jit_start_address"] += rng.choice([4, 5, 6, 7])
-    if variant in ("rimiss", "rimifull") and rng.random() < .3:
-        cfg["shadow_stack_size"] = rng.choice([8, 64, 800, 1600])
+    if variant in ("rimiss", "rimifull") and rng.random() < .5:
+        cfg["shadow_stack_size"] = rng.choice([8, 24, 40, 64, 792, 800, 1600])
     return cfg
 
 
